@@ -50,6 +50,9 @@ let () =
         let c = n_of_string cap in
         let offs = List.map (fun h -> offset_from_hash (n_of_string h) c) hs in
         Printf.printf "offs=%s next=%s\n" (ns offs) (ns (List.map (fun o -> inc_and_wrap o c) offs))
+      | ("strpred" | "heapsizes") :: _ when src_str_preds = None ->
+        (* a predicate of the current source could not be read: no prediction (the check module decides) *)
+        print_endline "nopreds"
       | "strpred" :: lens ->
         (* the four real predicates + how a pushed value is represented + the modelled round trip, per length *)
         let sp = (match src_str_preds with Some x -> x | None -> failwith "src_str_preds = None") in
